@@ -6,7 +6,19 @@
  * (counts and every cell: old cells preserved, newly exposed cells zero).  The real calls run under ASan+UBSan.
  * Out-of-range accessors run in a nested child: they must return the documented sentinel / be a no-op, or end in
  * the library's own abort() without any sanitizer report.  Every written value is unique (a running counter),
- * so a misplaced or duplicated cell is unambiguous.  Copies are mutated right away to prove they are deep. */
+ * so a misplaced or duplicated cell is unambiguous.  Copies are mutated right away to prove they are deep.
+ *
+ * Every public container function of vector.h / matrix.h / tensor.h / list.h is in the histories (the numerical
+ * kernels - products, norms, statistics, transposes, decompositions - belong to C10/C11/C12): besides the
+ * create/resize/copy/append/delete/set/get/extend/sort operations also the whole-container setters (DVectorSet,
+ * UIVectorSet, IVectorSet, MatrixSet, TensorSet), the searches (DVectorHasValue, UIVectorHasValue, UIVectorIndexOf,
+ * IVectorHasValue, ValInMatrix, MatrixGetMaxValueIndex, MatrixGetMinValueIndex), the string helpers (Trim,
+ * SplitString on generated text against a from-the-definition tokenizer), MatrixCheck / FindNan on injected
+ * non-finite cells, GenIdentityMatrix, MatrixInitRandomInt / MatrixInitRandomFloat (shape unchanged, values in
+ * [low, high)), TensorAppendMatrixAt, NewDVectorList, operations on the element vectors of a list, and the Print*
+ * functions (stdout sent to /dev/null: they only read, the sanitizers watch the reads).  Calls the library documents
+ * as errors (TensorAppendMatrix with another row count, TensorAppendMatrixAt inside the tensor, tensor appends and
+ * NewTensorMatrix at an order that does not exist, getStr / setStr past the end) run in the nested child. */
 /* glibc's <signal.h> declares a function ssignal(); the library typedefs ssignal: keep them apart */
 #define ssignal libc_ssignal_unused
 #include <signal.h>
@@ -14,7 +26,15 @@
 #undef ssignal
 #include <unistd.h>
 #include <fcntl.h>
+#include <ctype.h>
+#include <sys/mman.h>
 #include "drv_util.h"
+
+/* MatrixInitRandomInt / MatrixInitRandomFloat seed the library generator from time(NULL): the executable's definition of time()
+   wins for the library objects linked into it, and the clock is set from the case PRNG before those calls, so the values - and
+   everything later operations make of them - are a pure function of (seed, case) */
+static time_t g_clock = 1700000000;
+time_t time(time_t *t) { if (t) *t = g_clock; return g_clock; }
 
 void MatrixAppendUICol(matrix *m, uivector *col);   /* public function, missing from matrix.h (MatrixAppendUIRow is declared twice there) */
 
@@ -43,8 +63,10 @@ static matrix *MX[POOL]; static sh_mx SMX[POOL];
 static tensor *TN[POOL]; static sh_tn STN[POOL];
 static dvectorlist *LS[POOL]; static sh_ls SLS[POOL];
 
-static double g_counter;
-static double fresh(void) { g_counter += 1.0; return g_counter + 0.25; }
+/* every written value is unique within the case, and the sequence is not monotone (a fixed bijection of the running counter
+   modulo a prime), so that sorting really moves elements and rows */
+static double g_counter; static unsigned long g_nfresh;
+static double fresh(void) { g_nfresh++; return g_counter + (double)((g_nfresh * 7919UL) % 10007UL) + 0.25; }
 static char g_lastop[200];
 static vh_ctx *g_c;
 static int g_bad;
@@ -93,7 +115,7 @@ static void check_all(void)
 
 /* ------------------------------------------------------------------ out-of-range accessors in a nested child */
 /* returns: 0 returned normally with the expected sentinel/no effect, 1 clean abort, 2 sanitizer report, 3 returned wrong, 4 other signal */
-static int g_oor_kind; static size_t g_oor_slot; static size_t g_oor_i, g_oor_j, g_oor_k;
+static int g_oor_kind, g_oor_soft; static size_t g_oor_slot; static size_t g_oor_i, g_oor_j, g_oor_k;
 static int oor_body(void)
 {
   switch (g_oor_kind) {
@@ -113,14 +135,27 @@ static int oor_body(void)
     case 12: { size_t n = DV[g_oor_slot]->size; DVectorRemoveAt(DV[g_oor_slot], g_oor_i); return DV[g_oor_slot]->size == n ? 0 : 3; }   /* documented no-op */
     case 13: { size_t n = UV[g_oor_slot]->size; UIVectorRemoveAt(UV[g_oor_slot], g_oor_i); return UV[g_oor_slot]->size == n ? 0 : 3; }
     case 14: { size_t n = IV[g_oor_slot]->size; IVectorRemoveAt(IV[g_oor_slot], g_oor_i); return IV[g_oor_slot]->size == n ? 0 : 3; }
+    case 15: { char *p = getStr(SV[g_oor_slot], g_oor_i); return p == NULL ? 0 : 3; }                       /* no documented sentinel: NULL or an abort are safe */
+    case 16: { size_t n = SV[g_oor_slot]->size; setStr(SV[g_oor_slot], g_oor_i, "out-of-range"); return SV[g_oor_slot]->size == n ? 0 : 3; }
+    case 17: { size_t o = TN[g_oor_slot]->order; NewTensorMatrix(TN[g_oor_slot], g_oor_k, 2, 2); return TN[g_oor_slot]->order == o ? 0 : 3; }   /* message and no effect; abort for an order-0 tensor */
+    case 18: { dvector *v; NewDVector(&v, g_oor_i); TensorAppendColumn(TN[g_oor_slot], g_oor_k, v); return 3; }   /* documented: abort */
+    case 19: { dvector *v; NewDVector(&v, g_oor_i); TensorAppendRow(TN[g_oor_slot], g_oor_k, v); return 3; }      /* documented: abort */
+    case 20: { matrix *m; NewMatrix(&m, g_oor_i, g_oor_j); TensorAppendMatrixAt(TN[g_oor_slot], g_oor_k, m); return 3; }   /* inside the tensor: "Module not developed", abort */
+    case 21: { matrix *m; NewMatrix(&m, g_oor_i, g_oor_j); TensorAppendMatrix(TN[g_oor_slot], m); return 3; }     /* another row count than the last block: documented abort */
+    case 22: { matrix *m; NewMatrix(&m, g_oor_i, g_oor_j); TensorAppendMatrixAt(TN[g_oor_slot], g_oor_k, m); return 3; }   /* at the end, another row count: abort of TensorAppendMatrix */
   }
   return 3;
 }
 static const char *OORNAME[] = { "setDVectorValue", "getDVectorValue", "setUIVectorValue", "getUIVectorValue", "setIVectorValue", "getIVectorValue",
-  "setMatrixValue", "getMatrixValue", "getMatrixRow", "getMatrixColumn", "setTensorValue", "getTensorValue", "DVectorRemoveAt", "UIVectorRemoveAt", "IVectorRemoveAt" };
+  "setMatrixValue", "getMatrixValue", "getMatrixRow", "getMatrixColumn", "setTensorValue", "getTensorValue", "DVectorRemoveAt", "UIVectorRemoveAt", "IVectorRemoveAt",
+  "getStr", "setStr", "NewTensorMatrix", "TensorAppendColumn", "TensorAppendRow", "TensorAppendMatrixAt", "TensorAppendMatrix", "TensorAppendMatrixAt" };
+/* what the call violates: kinds 0..16 index past the end of the container ("out-of-range", keys unchanged), the others are
+   calls the library documents as errors (its message + abort) */
+static const char *oor_tag(int kind) { return kind <= 16 ? "out-of-range" : kind <= 19 ? "order-out-of-range" : kind == 20 ? "order-inside-tensor" : "row-count-mismatch"; }
 static void run_oor(void)
 {
-  int fd[2], st = 0, rc; pid_t pid; char buf[4096]; ssize_t n, tot = 0;
+  int fd[2], st = 0, rc, acc = g_oor_kind <= 16, bad0 = g_bad; pid_t pid; char buf[4096], key[160]; ssize_t n, tot = 0;
+  const char *nm = OORNAME[g_oor_kind], *tag = oor_tag(g_oor_kind);
   fflush(g_c->out);
   if (pipe(fd)) return;
   pid = fork();
@@ -134,22 +169,24 @@ static void run_oor(void)
   while ((n = read(fd[0], buf + tot, sizeof buf - 1 - (size_t)tot)) > 0) { tot += n; if ((size_t)tot >= sizeof buf - 1) break; }
   buf[tot] = 0; close(fd[0]);
   waitpid(pid, &st, 0);
-  vh_obs("out_of_range_accessor_calls", 1);
+  vh_obs(acc ? "out_of_range_accessor_calls" : "documented_error_calls", 1);
+  { char on[96]; snprintf(on, sizeof on, "child_%s_%s", nm, tag); vh_obs(on, 1); }
   if (strstr(buf, "Sanitizer") || strstr(buf, "runtime error")) {
-    char key[120]; snprintf(key, sizeof key, "%s|out-of-range-access-touches-memory", OORNAME[g_oor_kind]);
-    vh_fail(g_c, key, "%s with index (%zu,%zu,%zu) out of range produced a sanitizer report: %.300s", OORNAME[g_oor_kind], g_oor_k, g_oor_i, g_oor_j, buf); g_bad = 1;
-  } else if (WIFSIGNALED(st) && WTERMSIG(st) == SIGABRT) vh_obs("out_of_range_clean_abort", 1);
+    snprintf(key, sizeof key, acc ? "%s|%s-access-touches-memory" : "%s|%s-touches-memory", nm, tag);
+    vh_fail(g_c, key, "%s with index (%zu,%zu,%zu) %s produced a sanitizer report: %.300s", nm, g_oor_k, g_oor_i, g_oor_j, tag, buf); g_bad = 1;
+  } else if (WIFSIGNALED(st) && WTERMSIG(st) == SIGABRT) vh_obs(acc ? "out_of_range_clean_abort" : "documented_error_clean_abort", 1);
   else if (WIFSIGNALED(st)) {
-    char key[120]; snprintf(key, sizeof key, "%s|out-of-range-access-crashes", OORNAME[g_oor_kind]);
-    vh_fail(g_c, key, "%s out of range died with signal %d", OORNAME[g_oor_kind], WTERMSIG(st)); g_bad = 1;
-  } else if (WEXITSTATUS(st) == 0) vh_obs("out_of_range_sentinel_or_noop", 1);
+    snprintf(key, sizeof key, acc ? "%s|%s-access-crashes" : "%s|%s-crashes", nm, tag);
+    vh_fail(g_c, key, "%s %s died with signal %d", nm, tag, WTERMSIG(st)); g_bad = 1;
+  } else if (WEXITSTATUS(st) == 0) vh_obs(acc ? "out_of_range_sentinel_or_noop" : "documented_error_noop", 1);
   else if (WEXITSTATUS(st) == 1) {    /* UBSan exits with 1 after printing 'runtime error' - handled above; plain exit(1) is unexpected */
-    char key[120]; snprintf(key, sizeof key, "%s|out-of-range-unexpected-exit", OORNAME[g_oor_kind]);
-    vh_fail(g_c, key, "%s out of range exited with status 1: %.200s", OORNAME[g_oor_kind], buf); g_bad = 1;
+    snprintf(key, sizeof key, "%s|%s-unexpected-exit", nm, tag);
+    vh_fail(g_c, key, "%s %s exited with status 1: %.200s", nm, tag, buf); g_bad = 1;
   } else {
-    char key[120]; snprintf(key, sizeof key, "%s|out-of-range-not-safe", OORNAME[g_oor_kind]);
-    vh_fail(g_c, key, "%s out of range returned without the documented sentinel / changed the container", OORNAME[g_oor_kind]); g_bad = 1;
+    snprintf(key, sizeof key, "%s|%s-not-safe", nm, tag);
+    vh_fail(g_c, key, "%s %s (%zu,%zu,%zu) returned without the documented sentinel / error, or changed the container", nm, tag, g_oor_k, g_oor_i, g_oor_j); g_bad = 1;
   }
+  if (g_oor_soft) { g_bad = bad0; g_oor_soft = 0; }     /* the parent's containers are untouched: the history can go on after the report */
 }
 
 /* ------------------------------------------------------------------ helpers */
@@ -166,6 +203,72 @@ static dvector *mk_dv(size_t n, double *vals) { dvector *v; size_t i; NewDVector
 
 #define OP(fmt, ...) do { snprintf(g_lastop, sizeof g_lastop, fmt, __VA_ARGS__); vh_desc(g_c, "%s;", g_lastop); } while (0)
 #define OBSOP(name) vh_obs("op_" name, 1)
+#define FN(name) vh_obs("fn_" name, 1)             /* public functions reached by the operations added for "every public container function" */
+
+/* the Print* functions and FindNan write to stdout: send fd 1 to /dev/null (or to a memory file that is read back) while they
+   run, so that they do run - under the sanitizers - and the record stream stays clean */
+static int g_null_fd = -1;
+static int quiet_begin(int capture_fd)
+{
+  int saved;
+  fflush(stdout); if (g_c->out && g_c->out != stdout) fflush(g_c->out);
+  if (g_null_fd < 0) g_null_fd = open("/dev/null", O_WRONLY);
+  saved = dup(1);
+  if (saved >= 0) dup2(capture_fd >= 0 ? capture_fd : g_null_fd, 1);
+  return saved;
+}
+static void quiet_end(int saved) { fflush(stdout); if (saved >= 0) { dup2(saved, 1); close(saved); } }
+static int g_cap_fd = -1;      /* an unlinked temporary file, reused: what FindNan printed is read back from it */
+static int cap_fd(void)
+{
+  if (g_cap_fd < 0) { FILE *f = tmpfile(); if (f) { g_cap_fd = dup(fileno(f)); fclose(f); } }
+  if (g_cap_fd >= 0 && (ftruncate(g_cap_fd, 0) != 0 || lseek(g_cap_fd, 0, SEEK_SET) != 0)) { close(g_cap_fd); g_cap_fd = -1; }
+  return g_cap_fd;
+}
+static size_t cap_read(char *buf, size_t cap)
+{
+  ssize_t n = 0;
+  if (g_cap_fd >= 0 && lseek(g_cap_fd, 0, SEEK_SET) == 0) n = read(g_cap_fd, buf, cap - 1);
+  if (n < 0) n = 0;
+  buf[n] = 0; return (size_t)n;
+}
+static int cmp_dbl(const void *a, const void *b) { double x = *(const double *)a, y = *(const double *)b; return (x > y) - (x < y); }
+
+/* text for Trim / SplitString: word characters, characters of the separator set and white space in random order */
+static size_t gen_text(vh_ctx *c, char *buf, size_t maxlen, const char *sep)
+{
+  static const char word[] = "abcXYZ019_-.", ws[] = " \t\n\r\v\f";
+  size_t n = 0, target = (size_t)vh_int(c, 0, (long)maxlen), ns = strlen(sep);
+  int pad = (int)vh_int(c, 0, 3);                 /* bit 0: leading white space, bit 1: trailing white space */
+  if ((pad & 1) && n < target) buf[n++] = ws[vh_int(c, 0, 5)];
+  while (n < target) {
+    long w = vh_int(c, 0, 9);
+    buf[n++] = w < 6 ? word[vh_int(c, 0, (long)sizeof word - 2)] : (w < 8 && ns) ? sep[vh_int(c, 0, (long)ns - 1)] : w < 8 ? 'q' : ws[vh_int(c, 0, 5)];
+  }
+  if ((pad & 2) && n > 0) buf[n - 1] = ws[vh_int(c, 0, 5)];
+  buf[n] = 0;
+  return n;
+}
+/* Trim by its definition: leading and trailing white space removed, the rest untouched */
+static void model_trim(const char *in, char *out)
+{
+  size_t a = 0, b = strlen(in);
+  while (a < b && isspace((unsigned char)in[a])) a++;
+  while (b > a && isspace((unsigned char)in[b - 1])) b--;
+  memcpy(out, in + a, b - a); out[b - a] = 0;
+}
+/* SplitString by its definition: the trimmed text cut at every character of sep, empty pieces dropped; returns the token count */
+static size_t model_split(const char *in, const char *sep, char tok[][40], size_t maxtok)
+{
+  char t[80]; size_t n = 0, i, len = 0;
+  model_trim(in, t);
+  for (i = 0; ; i++) {
+    if (t[i] == 0 || strchr(sep, t[i])) { if (len && n < maxtok) { tok[n][len] = 0; n++; } len = 0; if (t[i] == 0) break; }
+    else if (n < maxtok && len < 39) tok[n][len++] = t[i];
+  }
+  return n;
+}
+static char *heap_str(const char *s) { size_t n = strlen(s) + 1; char *p = malloc(n); memcpy(p, s, n); return p; }   /* exact allocation: the red zone starts right behind the terminator */
 
 /* ------------------------------------------------------------------ operations per kind */
 static void op_dvector(vh_ctx *c)
@@ -177,7 +280,7 @@ static void op_dvector(vh_ctx *c)
     else { OP("D%zu=init", k); initDVector(&DV[k]); s->n = 0; }
     s->live = 1; OBSOP("dvector_create"); return;
   }
-  switch (vh_int(c, 0, 12)) {
+  switch (vh_int(c, 0, 14)) {
     case 0: { size_t n = (size_t)vh_int(c, 0, 8); OP("D%zu.resize(%zu)", k, n); DVectorResize(DV[k], n); s->n = n; for (i = 0; i < n; i++) s->v[i] = 0; OBSOP("dvector_resize"); break; }
     case 1: case 2: if (s->n < MAXN - 8) { double v = fresh(); OP("D%zu.append", k); DVectorAppend(DV[k], v); s->v[s->n++] = v; OBSOP("dvector_append"); } break;
     case 3: if (s->n > 0) { size_t ix = (size_t)vh_int(c, 0, (long)s->n - 1); OP("D%zu.removeAt(%zu/%zu)", k, ix, s->n); DVectorRemoveAt(DV[k], ix); memmove(&s->v[ix], &s->v[ix + 1], (s->n - ix - 1) * sizeof(double)); s->n--; OBSOP("dvector_remove"); } break;
@@ -194,6 +297,12 @@ static void op_dvector(vh_ctx *c)
     case 9: { OP("D%zu.removeAt(OOR)", k); g_oor_kind = 12; g_oor_slot = k; g_oor_i = s->n + (size_t)vh_int(c, 0, 2); run_oor(); break; }
     case 10: { double v = fresh(); OP("D%zu.setAll", k); DVectorSet(DV[k], v); for (i = 0; i < s->n; i++) s->v[i] = v; OBSOP("dvector_setall"); break; }
     case 11: { size_t a, b; OP("D%zu.sort", k); DVectorSort(DV[k]); for (a = 0; a < s->n; a++) for (b = a + 1; b < s->n; b++) if (s->v[b] < s->v[a]) { double t = s->v[a]; s->v[a] = s->v[b]; s->v[b] = t; } OBSOP("dvector_sort"); break; }
+    case 12: { int r; OP("D%zu.hasValue(n=%zu)", k, s->n);      /* documented: 0 = present, 1 = absent; the comparison has a tolerance of 1e-3 */
+              if (s->n) { size_t ix = (size_t)vh_int(c, 0, (long)s->n - 1); r = DVectorHasValue(DV[k], s->v[ix]); if (r != 0) { vh_fail(c, "DVectorHasValue|present-value-reported-absent", "element %zu = %.17g of a vector of %zu: returned %d", ix, s->v[ix], s->n, r); g_bad = 1; } }
+              { double x = (s->n ? s->v[vh_int(c, 0, (long)s->n - 1)] : 0.0) + 0.5; int nearv = 0; for (i = 0; i < s->n; i++) if (fabs(s->v[i] - x) <= 2e-3) nearv = 1;
+                r = DVectorHasValue(DV[k], x); if (!nearv && r != 1) { vh_fail(c, "DVectorHasValue|absent-value-reported-present", "%.17g is no element of the vector of %zu: returned %d", x, s->n, r); g_bad = 1; } }
+              OBSOP("dvector_search"); FN("DVectorHasValue"); break; }
+    case 13: { int q; OP("D%zu.print(n=%zu)", k, s->n); q = quiet_begin(-1); PrintDVector(DV[k]); quiet_end(q); OBSOP("dvector_print"); FN("PrintDVector"); break; }
     default: { OP("D%zu.del", k); DelDVector(&DV[k]); s->live = 0; OBSOP("dvector_delete"); break; }
   }
 }
@@ -207,7 +316,7 @@ static void op_uivector(vh_ctx *c)
     else { OP("U%zu=init", k); initUIVector(&UV[k]); s->n = 0; }
     s->live = 1; OBSOP("uivector_create"); return;
   }
-  switch (vh_int(c, 0, 11)) {
+  switch (vh_int(c, 0, 14)) {
     case 0: { size_t n = (size_t)vh_int(c, 0, 8); OP("U%zu.resize(%zu)", k, n); UIVectorResize(UV[k], n); s->n = n; for (i = 0; i < n; i++) s->v[i] = 0; OBSOP("uivector_resize"); break; }
     case 1: case 2: if (s->n < MAXN - 8) { size_t v = vh_coin(c, 0.15) ? ((size_t)1 << 33) + (size_t)vh_int(c, 0, 1000) : (size_t)vh_int(c, 0, 100000); OP("U%zu.append(%zu)", k, v); UIVectorAppend(UV[k], v); s->v[s->n++] = v; OBSOP("uivector_append"); } break;
     case 3: if (s->n > 0) { size_t ix = (size_t)vh_int(c, 0, (long)s->n - 1); OP("U%zu.removeAt(%zu/%zu)", k, ix, s->n); UIVectorRemoveAt(UV[k], ix); memmove(&s->v[ix], &s->v[ix + 1], (s->n - ix - 1) * sizeof(size_t)); s->n--; OBSOP("uivector_remove"); } break;
@@ -221,6 +330,14 @@ static void op_uivector(vh_ctx *c)
     case 9: { size_t a, b; OP("U%zu.sort", k); SortUIVector(UV[k]); for (a = 0; a < s->n; a++) for (b = a + 1; b < s->n; b++) if (s->v[b] < s->v[a]) { size_t t = s->v[a]; s->v[a] = s->v[b]; s->v[b] = t; } OBSOP("uivector_sort"); break; }
     case 10: if (s->n > 0) { size_t ix = (size_t)vh_int(c, 0, (long)s->n - 1), first = 0; int r; OP("U%zu.indexOf", k); r = UIVectorIndexOf(UV[k], s->v[ix]); while (s->v[first] != s->v[ix]) first++;
               if (r != (int)first || UIVectorHasValue(UV[k], s->v[ix]) != 0 || UIVectorHasValue(UV[k], 99999999999ULL) != 1) { vh_fail(c, "uivector|search", "IndexOf/HasValue wrong: got %d expected %zu", r, first); g_bad = 1; } OBSOP("uivector_search"); } break;
+    case 11: { size_t v = vh_coin(c, 0.15) ? ((size_t)1 << 33) + (size_t)vh_int(c, 0, 1000) : (size_t)vh_int(c, 0, 100000); OP("U%zu.setAll(%zu)", k, v); UIVectorSet(UV[k], v); for (i = 0; i < s->n; i++) s->v[i] = v; OBSOP("uivector_setall"); FN("UIVectorSet"); break; }
+    case 12: { size_t x = (s->n && vh_coin(c, 0.5)) ? s->v[vh_int(c, 0, (long)s->n - 1)] : (size_t)vh_int(c, 0, 100000), first = s->n; int r, h;     /* any value: IndexOf = first position or -1, HasValue = 0 present / 1 absent */
+              OP("U%zu.search(%zu, n=%zu)", k, x, s->n); for (i = s->n; i-- > 0; ) if (s->v[i] == x) first = i;
+              r = UIVectorIndexOf(UV[k], x); h = UIVectorHasValue(UV[k], x);
+              if (r != (first < s->n ? (int)first : -1)) { vh_fail(c, "UIVectorIndexOf|wrong-index", "value %zu in a vector of %zu: returned %d, first position %s%zu", x, s->n, r, first < s->n ? "" : "none/", first); g_bad = 1; }
+              if (h != (first < s->n ? 0 : 1)) { vh_fail(c, "UIVectorHasValue|wrong-answer", "value %zu in a vector of %zu (%s): returned %d", x, s->n, first < s->n ? "present" : "absent", h); g_bad = 1; }
+              OBSOP("uivector_search_any"); FN("UIVectorHasValue"); FN("UIVectorIndexOf"); break; }
+    case 13: { int q; OP("U%zu.print(n=%zu)", k, s->n); q = quiet_begin(-1); PrintUIVector(UV[k]); quiet_end(q); OBSOP("uivector_print"); FN("PrintUIVector"); break; }
     default: { OP("U%zu.del", k); DelUIVector(&UV[k]); s->live = 0; OBSOP("uivector_delete"); break; }
   }
 }
@@ -234,7 +351,7 @@ static void op_ivector(vh_ctx *c)
     else { OP("I%zu=init", k); initIVector(&IV[k]); s->n = 0; }
     s->live = 1; OBSOP("ivector_create"); return;
   }
-  switch (vh_int(c, 0, 9)) {
+  switch (vh_int(c, 0, 11)) {
     case 0: case 1: if (s->n < MAXN - 8) { int v = (int)vh_int(c, -100000, 100000); OP("I%zu.append(%d)", k, v); IVectorAppend(IV[k], v); s->v[s->n++] = v; OBSOP("ivector_append"); } break;
     case 2: if (s->n > 0) { size_t ix = (size_t)vh_int(c, 0, (long)s->n - 1); OP("I%zu.removeAt(%zu/%zu)", k, ix, s->n); IVectorRemoveAt(IV[k], ix); memmove(&s->v[ix], &s->v[ix + 1], (s->n - ix - 1) * sizeof(int)); s->n--; OBSOP("ivector_remove"); } break;
     case 3: { size_t a = (size_t)vh_int(c, 0, POOL - 1), d = (size_t)vh_int(c, 0, POOL - 1); if (SIV[a].live && d != k && d != a && s->n + SIV[a].n < MAXN) {
@@ -245,6 +362,11 @@ static void op_ivector(vh_ctx *c)
     case 6: { OP("I%zu.get(OOR)", k); g_oor_kind = 5; g_oor_slot = k; g_oor_i = s->n + (size_t)vh_int(c, 0, 2); run_oor(); break; }
     case 7: { OP("I%zu.removeAt(OOR)", k); g_oor_kind = 14; g_oor_slot = k; g_oor_i = s->n + (size_t)vh_int(c, 0, 2); run_oor(); break; }
     case 8: { int v = (int)vh_int(c, -9, 9); OP("I%zu.setAll", k); IVectorSet(IV[k], v); for (i = 0; i < s->n; i++) s->v[i] = v; if (s->n && (IVectorHasValue(IV[k], v) != 0 || IVectorHasValue(IV[k], v + 1) != 1)) { vh_fail(c, "ivector|search", "HasValue wrong"); g_bad = 1; } OBSOP("ivector_setall"); break; }
+    case 9: { int x = (s->n && vh_coin(c, 0.5)) ? s->v[vh_int(c, 0, (long)s->n - 1)] : (int)vh_int(c, -100000, 100000), present = 0, h;
+              OP("I%zu.hasValue(%d, n=%zu)", k, x, s->n); for (i = 0; i < s->n; i++) if (s->v[i] == x) present = 1;
+              h = IVectorHasValue(IV[k], x); if (h != (present ? 0 : 1)) { vh_fail(c, "IVectorHasValue|wrong-answer", "value %d in a vector of %zu (%s): returned %d", x, s->n, present ? "present" : "absent", h); g_bad = 1; }
+              OBSOP("ivector_search_any"); FN("IVectorHasValue"); break; }
+    case 10: { int q; OP("I%zu.print(n=%zu)", k, s->n); q = quiet_begin(-1); PrintIVector(IV[k]); quiet_end(q); OBSOP("ivector_print"); FN("PrintIVector"); break; }
     default: { OP("I%zu.del", k); DelIVector(&IV[k]); s->live = 0; OBSOP("ivector_delete"); break; }
   }
 }
@@ -259,7 +381,7 @@ static void op_strvector(vh_ctx *c)
     else { OP("S%zu=init", k); initStrVector(&SV[k]); s->n = 0; }
     s->live = 1; OBSOP("strvector_create"); return;
   }
-  switch (vh_int(c, 0, 8)) {
+  switch (vh_int(c, 0, 12)) {
     case 0: { size_t n = (size_t)vh_int(c, 0, 5); OP("S%zu.resize(%zu)", k, n); StrVectorResize(SV[k], n); s->n = n; for (i = 0; i < n; i++) s->v[i][0] = 0; OBSOP("strvector_resize"); break; }
     case 1: case 2: if (s->n < 20) { snprintf(buf, sizeof buf, "str-%.0f-%s", fresh(), vh_coin(c, 0.3) ? "a longer payload xx" : "x"); OP("S%zu.append", k); StrVectorAppend(SV[k], buf); strcpy(s->v[s->n++], buf); OBSOP("strvector_append"); } break;
     case 3: if (s->n < 20) { int v = (int)vh_int(c, -99999, 99999); OP("S%zu.appendInt", k); StrVectorAppendInt(SV[k], v); snprintf(s->v[s->n++], 40, "%d", v); OBSOP("strvector_append_int"); } break;
@@ -272,6 +394,29 @@ static void op_strvector(vh_ctx *c)
               OBSOP("strvector_extend"); } break; }
     case 7: { strvector *tok; OP("S%zu.split", k); initStrVector(&tok); SplitString("  alpha;beta;;gamma ", ";", tok);
               if (tok->size != 3 || strcmp(tok->data[0], "alpha") || strcmp(tok->data[2], "gamma")) { vh_fail(c, "strvector|split", "SplitString gave %zu tokens", tok->size); g_bad = 1; } DelStrVector(&tok); OBSOP("strvector_split"); break; }
+    case 8: if (s->n <= 20) {     /* SplitString appends the tokens of a generated text to a live vector of the pool (empty or not) */
+              static const char *seps[] = { "", ";", ",;", " ", ";\t|", ":" };
+              const char *sep = seps[vh_int(c, 0, 5)]; char text[48], tok[24][40], *ht, *hs; size_t nt, t;
+              gen_text(c, text, 39, sep); nt = model_split(text, sep, tok, 24);
+              OP("S%zu.split(len=%zu,nsep=%zu,tokens=%zu,into n=%zu)", k, strlen(text), strlen(sep), nt, s->n);
+              ht = heap_str(text); hs = heap_str(sep); SplitString(ht, hs, SV[k]);
+              if (strcmp(ht, text) || strcmp(hs, sep)) { vh_fail(c, "SplitString|operand-modified", "the text or the separator set was changed by the call"); g_bad = 1; }
+              free(ht); free(hs);
+              for (t = 0; t < nt; t++) strcpy(s->v[s->n++], tok[t]);
+              vh_obs(nt == 0 ? "op_strvector_split_generated_no_token" : nt == 1 ? "op_strvector_split_generated_one_token" : "op_strvector_split_generated_many_tokens", 1); FN("SplitString"); FN("Trim"); } break;
+    case 9: { char text[48], want[48], *r;   /* Trim works in place: on an element of the vector (exact allocation of setStr), else on a heap copy; NULL and "" are documented inputs */
+              gen_text(c, text, 30, ";");  model_trim(text, want);
+              if (s->n > 0) { size_t ix = (size_t)vh_int(c, 0, (long)s->n - 1); OP("S%zu.trimAt(%zu,len=%zu->%zu)", k, ix, strlen(text), strlen(want)); setStr(SV[k], ix, text); r = Trim(getStr(SV[k], ix));
+                if (r != SV[k]->data[ix]) { vh_fail(c, "Trim|returns-another-pointer", "Trim did not return its argument"); g_bad = 1; } strcpy(s->v[ix], want); }
+              else { char *h = heap_str(text); OP("S%zu.trim(len=%zu->%zu)", k, strlen(text), strlen(want)); r = Trim(h);
+                if (r != h) { vh_fail(c, "Trim|returns-another-pointer", "Trim did not return its argument"); g_bad = 1; }
+                else if (strcmp(h, want)) { vh_fail(c, "Trim|wrong-result", "a text of %zu characters was trimmed to '%.40s', definition '%s'", strlen(text), h, want); g_bad = 1; }
+                free(h); }
+              if (Trim(NULL) != NULL) { vh_fail(c, "Trim|null-not-returned", "Trim(NULL) is not NULL"); g_bad = 1; }
+              { char *e = heap_str(""); if (Trim(e) != e || e[0] != 0) { vh_fail(c, "Trim|empty-string-changed", "Trim(\"\") did not return the empty string"); g_bad = 1; } free(e); }
+              OBSOP("strvector_trim"); vh_hist("trim_removed_chars", (long)(strlen(text) - strlen(want))); FN("Trim"); break; }
+    case 10: { int q; OP("S%zu.print(n=%zu)", k, s->n); q = quiet_begin(-1); PrintStrVector(SV[k]); quiet_end(q); OBSOP("strvector_print"); FN("PrintStrVector"); break; }
+    case 11: { int set = vh_coin(c, 0.5); OP("S%zu.%sStr(OOR,n=%zu)", k, set ? "set" : "get", s->n); g_oor_kind = set ? 16 : 15; g_oor_slot = k; g_oor_k = g_oor_j = 0; g_oor_i = s->n + (size_t)vh_int(c, 0, 2); g_oor_soft = 1; run_oor(); break; }
     default: { OP("S%zu.del", k); DelStrVector(&SV[k]); s->live = 0; OBSOP("strvector_delete"); break; }
   }
 }
@@ -288,7 +433,7 @@ static void op_matrix(vh_ctx *c)
     else { OP("M%zu=init", k); initMatrix(&MX[k]); s->r = s->c = 0; }
     s->live = 1; OBSOP("matrix_create"); return;
   }
-  switch (vh_int(c, 0, 19)) {
+  switch (vh_int(c, 0, 26)) {
     case 0: { size_t r = (size_t)vh_int(c, 0, 6), cc = (size_t)vh_int(c, 0, 6); OP("M%zu.resize(%zu,%zu from %zux%zu)", k, r, cc, s->r, s->c); ResizeMatrix(MX[k], r, cc); sh_mx_zero(s, r, cc); OBSOP("matrix_resize"); break; }
     case 1: case 2: if (s->r < 20) { double vals[MAXN]; size_t n = rnd_len(c, s->c, &rel); dvector *v;
               if (n > 30) n = 30;
@@ -324,13 +469,88 @@ static void op_matrix(vh_ctx *c)
               if (s->r && s->c) { double v = fresh(); MX[d]->data[0][0] = v; SMX[d].v[0][0] = v; }
               { char nm[48]; snprintf(nm, sizeof nm, "op_matrix_copy_%s", rel); vh_obs(nm, 1); } } break; }
     case 16: { double v = fresh(); OP("M%zu.setAll", k); MatrixSet(MX[k], v); for (i = 0; i < s->r; i++) for (j = 0; j < s->c; j++) s->v[i][j] = v; OBSOP("matrix_setall"); break; }
-    case 17: if (s->r > 0 && s->c > 0) { size_t col = (size_t)vh_int(c, 0, (long)s->c - 1), a, b; int rev = vh_coin(c, 0.5); OP("M%zu.%ssort(col %zu)", k, rev ? "reverse" : "", col); if (rev) MatrixReverseSort(MX[k], col); else MatrixSort(MX[k], col);
+    case 17: if (s->r > 0 && s->c > 0) { size_t col = (size_t)vh_int(c, 0, (long)s->c - 1), a, b; int rev = vh_coin(c, 0.5); long prep = vh_int(c, 0, 3);
+              /* the key column as the history left it (often zeros or one row), or rewritten through setMatrixValue with distinct values / with values that tie */
+              if (prep) for (a = 0; a < s->r; a++) { double v = prep == 3 ? (double)vh_int(c, 0, 2) : fresh(); setMatrixValue(MX[k], a, col, v); s->v[a][col] = v; }
+              OP("M%zu.%ssort(col %zu of %zux%zu,%s)", k, rev ? "reverse" : "", col, s->r, s->c, prep == 0 ? "keys as found" : prep == 3 ? "tied keys written" : "distinct keys written"); if (rev) MatrixReverseSort(MX[k], col); else MatrixSort(MX[k], col);
               /* all keys are unique counters unless the column was set-all: order rows of the model by key (stable for ties is not promised: only judge when keys are distinct) */
-              { int distinct = 1; for (a = 0; a < s->r; a++) for (b = a + 1; b < s->r; b++) if (s->v[a][col] == s->v[b][col]) distinct = 0;
-                if (distinct) { for (a = 0; a < s->r; a++) for (b = a + 1; b < s->r; b++) if (rev ? s->v[b][col] > s->v[a][col] : s->v[b][col] < s->v[a][col]) { double t[MAXN]; memcpy(t, s->v[a], sizeof t); memcpy(s->v[a], s->v[b], sizeof t); memcpy(s->v[b], t, sizeof t); } }
-                else { for (a = 0; a < s->r; a++) for (b = 0; b < s->c; b++) s->v[a][b] = MX[k]->data[a][b]; for (a = 0; a + 1 < s->r; a++) if (rev ? s->v[a][col] < s->v[a + 1][col] : s->v[a][col] > s->v[a + 1][col]) { vh_fail(c, "matrix|sort-order", "rows not ordered by the key column"); g_bad = 1; } } }
+              { int distinct = 1, moved = 0; for (a = 0; a < s->r; a++) for (b = a + 1; b < s->r; b++) if (s->v[a][col] == s->v[b][col]) distinct = 0;
+                if (distinct) { for (a = 0; a < s->r; a++) for (b = a + 1; b < s->r; b++) if (rev ? s->v[b][col] > s->v[a][col] : s->v[b][col] < s->v[a][col]) { double t[MAXN]; memcpy(t, s->v[a], sizeof t); memcpy(s->v[a], s->v[b], sizeof t); memcpy(s->v[b], t, sizeof t); moved = 1; }
+                                vh_obs(moved ? (rev ? "op_matrix_reverse_sort_rows_moved" : "op_matrix_sort_rows_moved") : "op_matrix_sort_already_ordered", 1); }
+                else { unsigned char used[MAXN]; memset(used, 0, sizeof used);     /* ties: the order among equal keys is free, but the rows must still be the same rows */
+                       for (a = 0; a < s->r && !g_bad; a++) { int found = 0; for (b = 0; b < s->r; b++) if (!used[b] && !memcmp(s->v[a], MX[k]->data[b], sizeof(double) * s->c)) { used[b] = 1; found = 1; break; }
+                         if (!found) { vh_fail(c, "matrix|sort-rows-not-a-permutation", "row %zu of the %zux%zu matrix is no longer present after sorting by column %zu (tied keys)", a, s->r, s->c, col); g_bad = 1; } }
+                       vh_obs("op_matrix_sort_tied_keys", 1);
+                       for (a = 0; a < s->r; a++) for (b = 0; b < s->c; b++) s->v[a][b] = MX[k]->data[a][b];
+                       for (a = 0; a + 1 < s->r; a++) if (rev ? s->v[a][col] < s->v[a + 1][col] : s->v[a][col] > s->v[a + 1][col]) { vh_fail(c, "matrix|sort-order", "rows not ordered by the key column"); g_bad = 1; } } }
               OBSOP("matrix_sort"); } break;
     case 18: if (s->r > 0 && s->c > 0) { OP("M%zu.valIn", k); if (ValInMatrix(MX[k], s->v[0][0]) != 1 || ValInMatrix(MX[k], -12345.5) != 0) { vh_fail(c, "matrix|ValInMatrix", "membership wrong"); g_bad = 1; } OBSOP("matrix_search"); } break;
+    case 19: {  /* FindNan reports the NaN cells, MatrixCheck replaces NaN and +-Inf by the missing-value code; everything else stays */
+              size_t nn = (s->r && s->c) ? (size_t)vh_int(c, 0, 3) : 0, t, pa[3], pb[3]; long pk[3]; int q, cfd; char cap[1024]; static unsigned char mark[MAXN][MAXN];
+              for (t = 0; t < nn; t++) { pa[t] = (size_t)vh_int(c, 0, (long)s->r - 1); pb[t] = (size_t)vh_int(c, 0, (long)s->c - 1); pk[t] = vh_int(c, 0, 2); }
+              OP("M%zu.findNan+check(%zux%zu,%zu non-finite cells)", k, s->r, s->c, nn);
+              for (t = 0; t < nn; t++) { MX[k]->data[pa[t]][pb[t]] = pk[t] == 0 ? (double)NAN : pk[t] == 1 ? (double)INFINITY : -(double)INFINITY; mark[pa[t]][pb[t]] = (unsigned char)(1 + pk[t]); s->v[pa[t]][pb[t]] = (double)MISSING; }
+              cfd = cap_fd(); q = quiet_begin(cfd); FindNan(MX[k]); quiet_end(q);
+              if (cfd >= 0 && q >= 0) { char *ln = cap; size_t nrep = 0, nexp = 0; int okpos = 1; cap_read(cap, sizeof cap);
+                for (i = 0; i < s->r; i++) for (j = 0; j < s->c; j++) if (mark[i][j] == 1) { int a = -1, b = -1; nexp++;
+                  if (!ln || sscanf(ln, "%*[^0-9]%d %d", &a, &b) != 2 || a != (int)i || b != (int)j) okpos = 0; else nrep++;
+                  if (ln) { ln = strchr(ln, '\n'); if (ln) ln++; } }
+                if (ln && *ln) okpos = 0;      /* more lines than NaN cells */
+                if (!okpos) { vh_fail(c, "FindNan|reported-positions-differ", "%zu NaN cells in the %zux%zu matrix, %zu reported in place; output '%.200s'", nexp, s->r, s->c, nrep, cap); g_bad = 1; }
+                vh_obs("findnan_positions_compared", (double)nexp); }
+              MatrixCheck(MX[k]);
+              for (t = 0; t < nn; t++) { if (MX[k]->data[pa[t]][pb[t]] != (double)MISSING && !g_bad) { vh_fail(c, "MatrixCheck|non-finite-cell-not-replaced", "cell [%zu][%zu] held %s and is %.17g after MatrixCheck (missing-value code %d)", pa[t], pb[t], pk[t] == 0 ? "NaN" : "Inf", MX[k]->data[pa[t]][pb[t]], MISSING); g_bad = 1; } mark[pa[t]][pb[t]] = 0; }
+              vh_obs(nn ? "op_matrix_check_with_nonfinite" : "op_matrix_check_all_finite", 1); FN("MatrixCheck"); FN("FindNan"); break; }
+    case 20: { int q; OP("M%zu.print(%zux%zu)", k, s->r, s->c); q = quiet_begin(-1); PrintMatrix(MX[k]); quiet_end(q); OBSOP("matrix_print"); FN("PrintMatrix"); break; }
+    case 21: { int low = (int)vh_int(c, -50, 50), high = low + (int)vh_int(c, 1, 100);    /* documented: random integers; shape unchanged, low <= value < high */
+              g_clock = (time_t)(1700000000L + vh_int(c, 0, 1000000000L));
+              OP("M%zu.initRandomInt(%d,%d on %zux%zu)", k, low, high, s->r, s->c); MatrixInitRandomInt(MX[k], low, high);
+              if (MX[k]->row != s->r || MX[k]->col != s->c) { vh_fail(c, "MatrixInitRandomInt|shape-changed", "%zux%zu became %zux%zu", s->r, s->c, MX[k]->row, MX[k]->col); g_bad = 1; }
+              else for (i = 0; i < s->r && !g_bad; i++) for (j = 0; j < s->c; j++) { double v = MX[k]->data[i][j];
+                if (!(v >= low && v < high)) { vh_fail(c, "MatrixInitRandomInt|value-outside-low-high", "[%zu][%zu] = %.17g with low %d high %d", i, j, v, low, high); g_bad = 1; break; }
+                if (v != floor(v)) { vh_fail(c, "MatrixInitRandomInt|value-not-integer", "[%zu][%zu] = %.17g", i, j, v); g_bad = 1; break; }
+                vh_max("max_random_int_fraction_of_range", (v - low) / (double)(high - low)); s->v[i][j] = v; }
+              OBSOP("matrix_init_random_int"); FN("MatrixInitRandomInt"); break; }
+    case 22: { double low = vh_range(c, -100.0, 100.0), high = low + vh_range(c, 0.5, 200.0);
+              g_clock = (time_t)(1700000000L + vh_int(c, 0, 1000000000L));
+              OP("M%zu.initRandomFloat(%.3f,%.3f on %zux%zu)", k, low, high, s->r, s->c); MatrixInitRandomFloat(MX[k], low, high);
+              if (MX[k]->row != s->r || MX[k]->col != s->c) { vh_fail(c, "MatrixInitRandomFloat|shape-changed", "%zux%zu became %zux%zu", s->r, s->c, MX[k]->row, MX[k]->col); g_bad = 1; }
+              else for (i = 0; i < s->r && !g_bad; i++) for (j = 0; j < s->c; j++) { double v = MX[k]->data[i][j];
+                if (!(v >= low && v < high)) { vh_fail(c, "MatrixInitRandomFloat|value-outside-low-high", "[%zu][%zu] = %.17g with low %.17g high %.17g", i, j, v, low, high); g_bad = 1; break; }
+                vh_max("max_random_float_fraction_of_range", (v - low) / (high - low)); s->v[i][j] = v; }
+              OBSOP("matrix_init_random_float"); FN("MatrixInitRandomFloat"); break; }
+    case 23: { int content = 0, soft = 0;   /* documented: "Generate the identity matrix"; the code leaves a non-square matrix alone */
+              for (i = 0; i < s->r; i++) for (j = 0; j < s->c; j++) if (i != j && s->v[i][j] != 0) content = 1;
+              OP("M%zu.genIdentity(%zux%zu,%s)", k, s->r, s->c, content ? "off-diagonal content" : "off-diagonal zero"); GenIdentityMatrix(MX[k]);
+              if (MX[k]->row != s->r || MX[k]->col != s->c) { vh_fail(c, "GenIdentityMatrix|shape-changed", "%zux%zu became %zux%zu", s->r, s->c, MX[k]->row, MX[k]->col); g_bad = 1; }
+              else if (s->r != s->c) { for (i = 0; i < s->r && !g_bad; i++) for (j = 0; j < s->c; j++) if (MX[k]->data[i][j] != s->v[i][j]) { vh_fail(c, "GenIdentityMatrix|non-square-matrix-changed", "[%zu][%zu] of the %zux%zu matrix changed from %.17g to %.17g", i, j, s->r, s->c, s->v[i][j], MX[k]->data[i][j]); g_bad = 1; break; } }
+              else { for (i = 0; i < s->r && !g_bad && !soft; i++) for (j = 0; j < s->c; j++) {
+                  if (i == j && MX[k]->data[i][j] != 1.0) { vh_fail(c, "GenIdentityMatrix|diagonal-not-one", "[%zu][%zu] = %.17g in the %zux%zu matrix", i, j, MX[k]->data[i][j], s->r, s->c); g_bad = 1; break; }
+                  if (i != j && MX[k]->data[i][j] != 0.0) { vh_fail(c, "GenIdentityMatrix|off-diagonal-not-zero|matrix-had-content", "[%zu][%zu] = %.17g after GenIdentityMatrix on a %zux%zu matrix that held %.17g there: the result is not the identity matrix", i, j, MX[k]->data[i][j], s->r, s->c, s->v[i][j]); soft = 1; break; } }
+                /* the report above does not end the history: the model follows what the library left in the off-diagonal cells */
+                for (i = 0; i < s->r; i++) for (j = 0; j < s->c; j++) s->v[i][j] = i == j ? 1.0 : (soft ? MX[k]->data[i][j] : 0.0); }
+              vh_obs(s->r != s->c ? "op_matrix_identity_non_square" : content ? "op_matrix_identity_square_with_content" : "op_matrix_identity_square_zero_offdiagonal", 1); FN("GenIdentityMatrix"); break; }
+    case 24: if (s->r > 0 && s->c > 0) {   /* documented: "find the maximum/minimum value in matrix and return the row and col indexes"; a pointer may be NULL.
+                                            Older versions of the library compared with a tolerance of 1e-3: judged when distinct values are further apart */
+              double vals[MAXN * MAXN], vmax, vmin; size_t nv = 0, rr = 777, cc = 777; int separated = 1, mx = vh_coin(c, 0.5), which = (int)vh_int(c, 0, 3), hit = 0, first_row_only = 1;
+              size_t *prow = which == 1 ? NULL : &rr, *pcol = which == 2 ? NULL : &cc;
+              for (i = 0; i < s->r; i++) for (j = 0; j < s->c; j++) vals[nv++] = s->v[i][j];
+              qsort(vals, nv, sizeof(double), cmp_dbl); vmin = vals[0]; vmax = vals[nv - 1];
+              for (i = 0; i + 1 < nv; i++) if (vals[i + 1] != vals[i] && vals[i + 1] - vals[i] <= 2e-3) separated = 0;
+              OP("M%zu.arg%s(%zux%zu%s%s)", k, mx ? "max" : "min", s->r, s->c, prow ? "" : ",row=NULL", pcol ? "" : ",col=NULL");
+              if (mx) MatrixGetMaxValueIndex(MX[k], prow, pcol); else MatrixGetMinValueIndex(MX[k], prow, pcol);
+              if ((prow && rr >= s->r) || (pcol && cc >= s->c)) { vh_fail(c, mx ? "MatrixGetMaxValueIndex|index-out-of-range" : "MatrixGetMinValueIndex|index-out-of-range", "(%zu,%zu) for a %zux%zu matrix", rr, cc, s->r, s->c); g_bad = 1; }
+              else if (separated) { double want = mx ? vmax : vmin;
+                for (i = 0; i < s->r; i++) for (j = 0; j < s->c; j++) if (s->v[i][j] == want) { if ((!prow || i == rr) && (!pcol || j == cc)) hit = 1; if (i > 0) first_row_only = 0; }
+                if (!hit) { char key[96]; snprintf(key, sizeof key, "%s|not-the-%s%s", mx ? "MatrixGetMaxValueIndex" : "MatrixGetMinValueIndex", mx ? "maximum" : "minimum", first_row_only ? "|extreme-value-in-first-row" : "");
+                  char sr[24], sc[24]; if (prow) snprintf(sr, sizeof sr, "%zu", rr); else strcpy(sr, "NULL"); if (pcol) snprintf(sc, sizeof sc, "%zu", cc); else strcpy(sc, "NULL");
+                  vh_fail(c, key, "%zux%zu matrix: returned (row,col) = (%s,%s), cell value %.17g, but the %s is %.17g%s", s->r, s->c, sr, sc, (prow && pcol) ? s->v[rr][cc] : (double)NAN, mx ? "maximum" : "minimum", want, first_row_only ? " (held only by cells of the first row)" : ""); }
+                vh_obs("op_matrix_argextreme_judged", 1); }
+              else vh_obs("op_matrix_argextreme_values_within_tolerance_not_judged", 1);
+              if (mx) FN("MatrixGetMaxValueIndex"); else FN("MatrixGetMinValueIndex"); } break;
+    case 25: if (s->r > 0 && s->c > 0) { size_t a = (size_t)vh_int(c, 0, (long)s->r - 1), b = (size_t)vh_int(c, 0, (long)s->c - 1); long w = vh_int(c, 0, 2); double v = w == 0 ? (double)NAN : w == 1 ? (double)INFINITY : -(double)INFINITY;
+              /* setMatrixValue stores the missing-value code for NaN / Inf (its own rule; MatrixCheck does the same) */
+              OP("M%zu.set(%zu,%zu,%s)", k, a, b, w == 0 ? "NaN" : "Inf"); setMatrixValue(MX[k], a, b, v); s->v[a][b] = (double)MISSING; OBSOP("matrix_set_nonfinite"); } break;
     default: { OP("M%zu.del", k); DelMatrix(&MX[k]); s->live = 0; OBSOP("matrix_delete"); break; }
   }
 }
@@ -346,11 +566,11 @@ static void op_tensor(vh_ctx *c)
            for (b = 0; b < o; b++) { size_t cc = (size_t)vh_int(c, 1, 4); NewTensorMatrix(TN[k], b, r, cc); s->b[b].r = r; s->b[b].c = cc; for (i = 0; i < r; i++) for (j = 0; j < cc; j++) s->b[b].v[i][j] = 0; } }
     s->live = 1; OBSOP("tensor_create"); return;
   }
-  switch (vh_int(c, 0, 11)) {
+  switch (vh_int(c, 0, 16)) {
     case 0: if (s->order < MAXORD) { size_t r = s->order ? s->b[s->order - 1].r : (size_t)vh_int(c, 1, 4), cc = (size_t)vh_int(c, 1, 4); OP("T%zu.addMatrix(%zu,%zu)", k, r, cc); AddTensorMatrix(TN[k], r, cc); b = s->order++; s->b[b].r = r; s->b[b].c = cc; for (i = 0; i < r; i++) for (j = 0; j < cc; j++) s->b[b].v[i][j] = 0; OBSOP("tensor_add_matrix"); } break;
     case 1: if (s->order < MAXORD) { size_t r = s->order ? s->b[s->order - 1].r : (size_t)vh_int(c, 1, 4), cc = (size_t)vh_int(c, 1, 4); matrix *m; if (r > TDIM - 4) break; NewMatrix(&m, r, cc); b = s->order; s->b[b].r = r; s->b[b].c = cc;
               for (i = 0; i < r; i++) for (j = 0; j < cc; j++) { m->data[i][j] = fresh(); s->b[b].v[i][j] = m->data[i][j]; }
-              OP("T%zu.appendMatrix(%zux%zu)", k, r, cc); TensorAppendMatrix(TN[k], m); s->order++; m->data[0][0] = -7; DelMatrix(&m); OBSOP("tensor_append_matrix"); } break;
+              OP("T%zu.appendMatrix(%zux%zu)", k, r, cc); TensorAppendMatrix(TN[k], m); s->order++; if (r && cc) m->data[0][0] = -7; DelMatrix(&m); OBSOP("tensor_append_matrix"); } break;
     case 2: if (s->order > 0) { b = (size_t)vh_int(c, 0, (long)s->order - 1); if (s->b[b].c < TDIM - 1) { double vals[MAXN]; size_t n = rnd_len(c, s->b[b].r, &rel); dvector *v; if (n > TDIM - 1) n = TDIM - 1; v = mk_dv(n, vals);
               OP("T%zu.appendColumn(block %zu,len=%zu %s, %zux%zu)", k, b, n, rel, s->b[b].r, s->b[b].c); TensorAppendColumn(TN[k], b, v); DelDVector(&v);
               { size_t nr = s->b[b].r == 0 ? n : (n > s->b[b].r ? n : s->b[b].r); for (i = s->b[b].r; i < nr; i++) for (j = 0; j < s->b[b].c; j++) s->b[b].v[i][j] = 0; for (i = 0; i < nr; i++) s->b[b].v[i][s->b[b].c] = i < n ? vals[i] : 0; s->b[b].r = nr; s->b[b].c++; }
@@ -385,18 +605,50 @@ static void op_tensor(vh_ctx *c)
               OP("T%zu.copyTo(T%zu,%s,order %zu->%zu)", k, d, rel, s->order, STN[d].order); TensorCopy(TN[k], &TN[d]); memcpy(&STN[d], s, sizeof *s);
               if (s->order && s->b[0].r && s->b[0].c) { double v = fresh(); TN[d]->m[0]->data[0][0] = v; STN[d].b[0].v[0][0] = v; }
               { char nm[64]; snprintf(nm, sizeof nm, "op_tensor_copy_%s", rel); vh_obs(nm, 1); } } break; }
+    case 11: if (s->order < MAXORD) {   /* TensorAppendMatrixAt at or behind the end appends (as TensorAppendMatrix); an empty tensor also takes blocks without rows or columns */
+              size_t at = s->order + (size_t)vh_int(c, 0, 2), r, cc; matrix *m; int zero = s->order == 0 && vh_coin(c, 0.2);
+              r = s->order ? s->b[s->order - 1].r : zero ? (size_t)vh_int(c, 0, 1) : (size_t)vh_int(c, 1, 4); cc = zero ? (size_t)vh_int(c, 0, 2) : (size_t)vh_int(c, 1, 4);
+              if (r > TDIM - 4) break;
+              NewMatrix(&m, r, cc); b = s->order; s->b[b].r = r; s->b[b].c = cc;
+              for (i = 0; i < r; i++) for (j = 0; j < cc; j++) { m->data[i][j] = fresh(); s->b[b].v[i][j] = m->data[i][j]; }
+              OP("T%zu.appendMatrixAt(%zu of order %zu,%zux%zu)", k, at, s->order, r, cc); TensorAppendMatrixAt(TN[k], at, m); s->order++; if (r && cc) m->data[0][0] = -7; DelMatrix(&m);
+              vh_obs(at == b ? "op_tensor_append_matrix_at_end" : "op_tensor_append_matrix_at_behind_end", 1); if (r == 0 || cc == 0) vh_obs("op_tensor_append_matrix_zero_dimension", 1); FN("TensorAppendMatrixAt"); } break;
+    case 12: if (s->order > 0) {        /* calls the library documents as errors: a block inside the tensor ("not developed"), a block with another row count */
+              long w = vh_int(c, 0, 2); size_t lr = s->b[s->order - 1].r; const char *rl = "equal";
+              g_oor_slot = k; g_oor_j = (size_t)vh_int(c, 1, 3);
+              if (w == 0) { g_oor_kind = 20; g_oor_k = (size_t)vh_int(c, 0, (long)s->order - 1); g_oor_i = lr; }
+              else { g_oor_kind = w == 1 ? 21 : 22; g_oor_k = s->order + (size_t)vh_int(c, 0, 1); g_oor_i = rnd_len(c, lr, &rl); if (g_oor_i == lr) { g_oor_i = lr + 1; rl = "longer"; } }
+              OP("T%zu.%s(ERR %s,at %zu of order %zu,rows %zu %s vs %zu)", k, OORNAME[g_oor_kind], oor_tag(g_oor_kind), g_oor_k, s->order, g_oor_i, rl, lr); run_oor(); FN("TensorAppendMatrixAt"); } break;
+    case 13: { int q; OP("T%zu.print(order %zu)", k, s->order); q = quiet_begin(-1); PrintTensor(TN[k]); quiet_end(q); OBSOP("tensor_print"); FN("PrintTensor"); break; }
+    case 14: { long w = vh_int(c, 0, 2); g_oor_kind = 17 + (int)w; g_oor_slot = k; g_oor_k = s->order + (size_t)vh_int(c, 0, 2); g_oor_i = (size_t)vh_int(c, 0, 3); g_oor_j = 0;
+              OP("T%zu.%s(OOR order %zu of %zu)", k, OORNAME[g_oor_kind], g_oor_k, s->order); run_oor(); break; }
+    case 15: if (s->order > 0) { b = (size_t)vh_int(c, 0, (long)s->order - 1); if (s->b[b].r && s->b[b].c) { size_t a = (size_t)vh_int(c, 0, (long)s->b[b].r - 1), q = (size_t)vh_int(c, 0, (long)s->b[b].c - 1); long w = vh_int(c, 0, 2);
+              OP("T%zu.set(%zu,%zu,%zu,%s)", k, b, a, q, w == 0 ? "NaN" : "Inf"); setTensorValue(TN[k], b, a, q, w == 0 ? (double)NAN : w == 1 ? (double)INFINITY : -(double)INFINITY); s->b[b].v[a][q] = (double)MISSING; OBSOP("tensor_set_nonfinite"); } } break;
     default: { OP("T%zu.del", k); DelTensor(&TN[k]); s->live = 0; OBSOP("tensor_delete"); break; }
   }
 }
 
 static void op_list(vh_ctx *c)
 {
-  size_t k = (size_t)vh_int(c, 0, POOL - 1), j;
+  size_t k = (size_t)vh_int(c, 0, POOL - 1), i, j;
   sh_ls *s = &SLS[k];
-  if (!s->live) { OP("L%zu=init", k); initDVectorList(&LS[k]); s->n = 0; s->live = 1; OBSOP("list_create"); return; }
-  switch (vh_int(c, 0, 3)) {
+  if (!s->live) {
+    if (vh_coin(c, 0.5)) { OP("L%zu=init", k); initDVectorList(&LS[k]); s->n = 0; }
+    else {   /* NewDVectorList allocates the slots only (as NewTensor does): every slot is filled right away with a vector of its own */
+      size_t n = (size_t)vh_int(c, 0, 3); OP("L%zu=New(%zu)+fill", k, n); NewDVectorList(&LS[k], n); s->n = n;
+      for (i = 0; i < n; i++) { size_t len = (size_t)vh_int(c, 0, 6); if (vh_coin(c, 0.3)) { initDVector(&LS[k]->d[i]); len = 0; } else NewDVector(&LS[k]->d[i], len);
+        s->len[i] = len; for (j = 0; j < len; j++) { s->v[i][j] = fresh(); LS[k]->d[i]->data[j] = s->v[i][j]; } }
+      FN("NewDVectorList"); vh_obs(n ? "op_list_create_with_slots" : "op_list_create_zero_slots", 1); }
+    s->live = 1; OBSOP("list_create"); return;
+  }
+  switch (vh_int(c, 0, 7)) {
     case 0: case 1: case 2: if (s->n < 8) { double vals[MAXN]; size_t n = (size_t)vh_int(c, 0, 10); dvector *v = mk_dv(n, vals); OP("L%zu.append(len %zu)", k, n); DVectorListAppend(LS[k], v); v->size ? (v->data[0] = -3) : 0; DelDVector(&v);
               s->len[s->n] = n; for (j = 0; j < n; j++) s->v[s->n][j] = vals[j]; s->n++; OBSOP("list_append"); } break;
+    /* the elements are vectors of their own: the vector operations on one element must leave the other elements and the list alone */
+    case 3: if (s->n > 0) { size_t e = (size_t)vh_int(c, 0, (long)s->n - 1); if (s->len[e] > 0) { size_t ix = (size_t)vh_int(c, 0, (long)s->len[e] - 1); double v = fresh(); OP("L%zu[%zu].set(%zu)", k, e, ix); setDVectorValue(LS[k]->d[e], ix, v); s->v[e][ix] = v; OBSOP("list_element_set"); } } break;
+    case 4: if (s->n > 0) { size_t e = (size_t)vh_int(c, 0, (long)s->n - 1); if (s->len[e] < 12) { double v = fresh(); OP("L%zu[%zu].append(len %zu)", k, e, s->len[e]); DVectorAppend(LS[k]->d[e], v); s->v[e][s->len[e]++] = v; OBSOP("list_element_append"); } } break;
+    case 5: if (s->n > 0) { size_t e = (size_t)vh_int(c, 0, (long)s->n - 1); if (s->len[e] > 0) { size_t ix = (size_t)vh_int(c, 0, (long)s->len[e] - 1); OP("L%zu[%zu].removeAt(%zu/%zu)", k, e, ix, s->len[e]); DVectorRemoveAt(LS[k]->d[e], ix); memmove(&s->v[e][ix], &s->v[e][ix + 1], (s->len[e] - ix - 1) * sizeof(double)); s->len[e]--; OBSOP("list_element_remove"); } } break;
+    case 6: { int q; OP("L%zu.printElements(%zu)", k, s->n); q = quiet_begin(-1); for (i = 0; i < s->n; i++) PrintDVector(LS[k]->d[i]); quiet_end(q); OBSOP("list_print_elements"); break; }
     default: { OP("L%zu.del", k); DelDVectorList(&LS[k]); s->live = 0; OBSOP("list_delete"); break; }
   }
 }
@@ -406,7 +658,7 @@ static void run_case(vh_ctx *c)
   size_t nops = (size_t)vh_int(c, 5, 40), o, k;
   int focus = (int)vh_int(c, 0, 7);       /* one kind gets most of the operations so that long histories on it occur */
   static const char *fname[] = { "mixed", "dvector", "uivector", "ivector", "strvector", "matrix", "tensor", "list" };
-  g_c = c; g_bad = 0; g_counter = (double)(c->idx % 1000) * 1000.0;
+  g_c = c; g_bad = 0; g_counter = (double)(c->idx % 1000) * 20000.0; g_nfresh = 0;
   memset(SDV, 0, sizeof SDV); memset(SUV, 0, sizeof SUV); memset(SIV, 0, sizeof SIV); memset(SSV, 0, sizeof SSV); memset(SMX, 0, sizeof SMX); memset(STN, 0, sizeof STN); memset(SLS, 0, sizeof SLS);
   vh_class(c, "%s-len%s", fname[focus], nops < 12 ? "<12" : nops < 25 ? "12-24" : "25-40");
   vh_desc(c, "focus=%s ops=%zu: ", fname[focus], nops);
@@ -425,6 +677,7 @@ static void run_case(vh_ctx *c)
     if (g_lastop[0]) { vh_obs("operations_executed", 1); check_all(); }
   }
   vh_hist("history_length", (long)(o / 5) * 5);
+  vh_max("max_unique_values_written_per_case", (double)g_nfresh);      /* unique while below 10007 */
   /* release everything: double frees / use after free surface here under ASan */
   snprintf(g_lastop, sizeof g_lastop, "final-release");
   for (k = 0; k < POOL; k++) {
